@@ -2,6 +2,7 @@ import MosnVerif.Drive.Downstream
 import MosnVerif.Drive.DownstreamMC
 import MosnVerif.Model.DownstreamSpec
 import MosnVerif.Drive.C10Tcp
+import MosnVerif.Drive.C09
 /-!
 C10 driver.  Kind `tcp` (stream proxy sessions on real sockets): see `Drive/C10Tcp.lean`.  Kinds `hist` / `mc`:
 `A` = the model's trace, ledger and done flag equal the implementation's.
@@ -48,6 +49,9 @@ def spec (cs : Case) (i : Impl) : Bool :=
 def run (caseToks impl : List String) : String :=
   if caseToks.head? == some "mc" then DownstreamMC.run caseToks else
   if caseToks.head? == some "tcp" then C10Tcp.run caseToks impl else
+  -- the real pools' ledger (kinds of harness/c09: multiplex pool with one-way requests, HTTP/2 pool): the predicate is the
+  -- observation predicate of the pool models — counters equal the truth after every operation
+  if caseToks.head? == some "mux" || caseToks.head? == some "h2p" then MosnVerif.Drive.C09.run caseToks impl else
   match parseCase caseToks, parseImpl impl with
   | some cs, some i =>
     let out := renderOut cs
